@@ -20,6 +20,7 @@ def run(ctx):
         "IUPAC classes of C16. Part classes resolve _match to the same implementation as their generic sibling. "
         "characterize(): the only value returned was valid on its path, every candidate is tried, the fall-through raises "
         "RuntimeError. Depends on C06 (a part compiles its own pattern)."
+        ' The symbolic-signature part is folded for every enzyme in scope in the quick tier too. candidates-typable: characterize() evaluated with a candidate that cannot be typed -- unless it steps over such a candidate, every direct subclass of a kit part base must be concrete (class table).'
     )
     r.not_decided = ["which occurrence the regex engine reports when several exist"]
     ap = p.get_class("moclo.core.parts.AbstractPart")
